@@ -150,12 +150,14 @@ class SimTLSSocket(SimSocket, ssl.SSLSocket):      # type: ignore[misc]
         self._push()
 
     def send(self, data: Any, flags: int = 0) -> int:
-        if self._cipher:
+        if self._pend_plain:
+            # retry of a write whose record was not completely out (it may have been completed by a read in between)
             if not self._push():
                 raise _want_write()
             n, self._pend_plain = self._pend_plain, 0
-            if n:
-                return n
+            return n
+        if not self._push():
+            raise _want_write()
         chunk = bytes(data[:RECORD_MAX])
         if not chunk:
             return 0
